@@ -17,7 +17,7 @@ SH5  the folds pair the negative literal with the low child and the positive lit
 CC   CNF compilation: a clause is a fold of `or` over var(label(lit), polarity(lit)); clauses are
      joined with `and`.
 """
-from . import mir
+from . import mir, canon
 from .base import inst, OK, VIOLATION, UNDECIDED, strip, bool_arms, P, C, K, ANY, T, match
 from .facts import CheckerError
 from .mir import show
@@ -72,6 +72,34 @@ def sh2(prog):
                 break
             if e != "selection by the value not recognised":
                 err = e
+        if err == "selection by the value not recognised":
+            # evaluate instead of matching: for each polarity of the pointer, the paths on which `value` was tested
+            # and which return a child of the pointer's own node (canon.paths_under)
+            seen = {}
+            for variant in ("Reg", "Compl"):
+                rs = canon.paths_under(fn, ptr, variant, with_conds=True) or []
+                for r, conds in rs:
+                    v = None
+                    for c, lab, _ in conds:
+                        if strip(c) == valp:
+                            v = 0 if lab == "0" else 1
+                    if v is None:
+                        continue
+                    r0 = strip(r)
+                    while mir.is_call(r0, "neg") and r0[2]:
+                        r0 = strip(r0[2][0])
+                    kind = None
+                    if r0[0] == "call" and r0[1].name in ("low", "high", "low_raw", "high_raw") and r0[2] and strip(r0[2][0]) == ptr:
+                        kind = r0[1].name[:3].replace("hig", "high")
+                    elif r0[0] == "field" and r0[2] in ("low", "high") and ptr in mir.subterms(r0[1]):
+                        kind = r0[2]
+                    if kind:
+                        seen.setdefault(v, set()).add("high" if kind.startswith("hi") else "low")
+            if seen.get(1) and seen.get(0):
+                if seen[1] == {"high"} and seen[0] == {"low"}:
+                    err = None
+                else:
+                    err = "value=true selects %s, value=false selects %s" % (sorted(seen[1]), sorted(seen[0]))
         out.append(inst("SH", "%s:SH2:cofactor" % fn.npath, (VIOLATION if err != "selection by the value not recognised" else UNDECIDED) if err else OK,
                         fn, None, err or "value=true ↦ high child, value=false ↦ low child"))
     # recursion of cond_with_alloc / cond_helper keeps positions: new(var, rec(low), rec(high))
